@@ -10,7 +10,7 @@ print(' '.join(sorted(ids)))")
 log=/verif/.build/sweep_${tier}_seed${seed}.log
 for p in $props; do
   t0=$(date +%s)
-  out=$(timeout 7200 /verif/check $p $tier --seed $seed 2>&1 | grep -E "^(VIOLATION|HELD|INCONCLUSIVE|NOTE)" | cut -c1-260)
+  out=$(timeout ${TMO:-7200} /verif/check $p $tier --seed $seed 2>&1 | grep -E "^(VIOLATION|HELD|INCONCLUSIVE|NOTE)" | cut -c1-260)
   echo "$(date -u +%T) $p $(( $(date +%s) - t0 ))s :: $out" | tr '\n' ' ' >> $log; echo >> $log
 done
 echo "sweep done" >> $log
